@@ -62,7 +62,7 @@ LEVEL_TEXT = (
     "(variant `fixed := false`, finding F3 before /repo 9ef1bcb) and only shows that the hypothesis `fixed` is needed. The "
     "hand-written model is tied to the code by (T) an AST extraction of the variant-selecting facts re-proved equal on every run "
     "and (A) trace acceptance (labels and timing) of seeded whole-operator histories. Defects met by this check and repaired in "
-    "/repo since: F3 (9ef1bcb), C20-F2 (ca0106f), C20-F4 (06bf1c1), C20-F6 (ed52a1a); their witnesses stay in the corpus and their oracle clauses "
+    "/repo since: F3 (9ef1bcb), C20-F2 (ca0106f), C20-F4 (06bf1c1), C20-F6 (ed52a1a), C20-F7 (83aec44); their witnesses stay in the corpus and their oracle clauses "
     "stay strict.")
 THEOREMS = [("Kopf.Props.C20", "Kopf.C20." + n) for n in [
     "no_api_before_startup", "failed_startup_no_api", "ready_after_startup", "root_failure_stops_all",
@@ -84,7 +84,7 @@ RULE = ("seeded lifecycle histories: 0-2 startup handlers (ok / sleeping / tempo
         "(initial scan, re-scan from a CRD event) and on the peering keep-alive (also fails the withdrawal), startup and cleanup "
         "handler failures, deletion and re-creation of the served CRD (HTTP 404 in the watcher: not a failure; watched again), "
         "login_fail (HTTP 401 invalidates the credentials, the re-login fails for good: the core task dies and must stop the operator, "
-        "cleanup handlers included), "
+        "cleanup handlers included; with peering in ~30 % of the cases: the operator must still return in time, regression of C20-F7), "
         "worker_fail_depletion (a poisoned event queued behind a handler in flight, then a stop: the worker fails while its "
         "watcher depletes), early_stop_peering (the API server applies a peering PATCH at once but answers 1/8-1/2 s later; the "
         "stop comes 4-16 ticks after startup, while the FIRST keep-alive is in flight: the record must still be withdrawn). "
@@ -115,15 +115,21 @@ ASSUMPTIONS = ["oracle bound = the bound of the Lean theorems + 1 s slack for re
                "PATCH are exempt from the oracle's 'record gone' clause)",
                "'daemons are stopped': cooperative daemons that got an exit stopper are over before the cleanup (cleanup_last, "
                "oracle); the others are 'hung tasks', cancelled after the cleanup, none alive at return",
-               "login_fail histories run without peering: with peering the dead vault blocks the withdrawal PATCH for ever (the shielded "
-               "touch(lifetime=0) in keepalive's `finally:` waits for credentials nobody will provide): since ed52a1a the operator "
-               "begins to stop at once but operator() never returns (seen: still stopping 80 s later) — a non-cooperative run outside "
-               "the traces the model accepts; reported as a candidate finding (residual of C20-F6), not covered by this check",
+               "EXEMPTION of the clause 'the peering record is withdrawn': once the credentials retriever has died there are no "
+               "credentials, so no withdrawal PATCH can be sent (since 83aec44 the shielded touch(lifetime=0) fails at once with "
+               "LoginError; kopf logs 'Couldn't remove self from the peering' and ignores it): the oracle does not demand the record to "
+               "be gone in such runs, the model sees the attempt as `withdraw i false`; the record expires by its lifetime (60 s)",
+               "a run in which the oracle reports the signature of C20-F7 (fixed by 83aec44: operator() never returns with peering on "
+               "and a dead credentials retriever) would be NON-COOPERATIVE and is skipped by the trace tie (counted as "
+               "`tie_skipped_noncooperative`); on the current tree there is none — login_fail histories with peering (~30 %) and the "
+               "corpus witness C20-F7 return within the bound and their traces are accepted",
                "sync handlers run inline (no real threads); liveness endpoint and _command root tasks are not started"]
 
 F3_SIG = {"site": "orchestration.orchestrator", "shape": "ensemble task ended with an exception while the operator keeps running"}
 
 CORE_SIG = {"site": "running.spawn_tasks", "shape": "core task ended with an exception while the operator keeps running"}
+VAULT_SIG = {"site": "peering.keepalive",
+             "shape": "withdrawal waits for credentials for ever after the credentials retriever died: operator() never returns"}
 DROPPED_SIG = {"site": "queueing.watcher",
                "shape": "worker failed while its watcher was already depleting its workers: only logged, not escalated, not re-raised"}
 DK_SIG = {"site": "daemons.daemon_killer",
@@ -325,6 +331,9 @@ def abstract(obs: dict, sc: dict | None = None, checker_awaits_core: bool = Fals
     log = obs["log"]
     stopping_begun = False
     checker_was_watcher = False
+    orch_err = False               # a (non-404) failed ensemble task has cancelled the running orchestrator
+    orch_stopping = False
+    wd_requests: dict[int, int] = {}
     out: list[list] = []
     coop = coop_daemons(sc or {})
     # outcomes of the withdrawal PATCHes, in the order of their requests
@@ -424,7 +433,9 @@ def abstract(obs: dict, sc: dict | None = None, checker_awaits_core: bool = Fals
                 put("coreEnd", a[1]) if a[0] == "core" else put("rootEnd", a[0], a[1])
         elif kind == "orchStopSubsBegin":
             if not a[1]:
-                put("rootStopping", "orchestrator", root_end.get("orchestrator") == "failed")
+                # `fail` is what the model forces it to be: has a failed ensemble task cancelled the orchestrator? (observed so far)
+                orch_stopping = True
+                put("rootStopping", "orchestrator", orch_err)
             else:                       # terminate_redundancies: tasks of keys no longer served / with an exited task
                 for i in a[2]:
                     if i not in ended_subs:
@@ -445,7 +456,17 @@ def abstract(obs: dict, sc: dict | None = None, checker_awaits_core: bool = Fals
             put("subSpawn", a[0], a[1])
         elif kind == "subEnd":
             ended_subs.add(a[0])
+            if a[2] == "failed" and a[3] != "APINotFoundError" and not orch_stopping and "orchestrator" not in ended_roots:
+                orch_err = True
             put("subEnd", a[0], a[2])
+        elif kind == "withdrawBegin":
+            if a[1] is not None and a[1] not in sub_stopping:
+                sub_stopping.add(a[1])
+                put("subStopping", a[1], sub_end.get(a[1]) == "failed")
+        elif kind == "withdrawEnd":
+            # an attempt that failed before any request left (no credentials): still an attempt, logged and ignored by kopf
+            if a[1] is not None and a[2] not in (None, "CancelledError") and not wd_requests.get(a[1]):
+                put("withdraw", a[1], False)
         elif kind == "workerStart":
             owner = ["root", a[1]] if a[1] in ROOTS else ["sub", a[2]]
             put("workerStart", a[0] - 1, owner)
@@ -464,6 +485,7 @@ def abstract(obs: dict, sc: dict | None = None, checker_awaits_core: bool = Fals
                     sub_stopping.add(ref)
                     put("subStopping", ref, sub_end.get(ref) == "failed")
                 put("withdraw", ref, wd_ok[n_wd] if n_wd < len(wd_ok) else False)
+                wd_requests[ref] = wd_requests.get(ref, 0) + 1
                 n_wd += 1
             else:
                 put("act", task(actor, ref))
@@ -650,6 +672,18 @@ def oracle(sc: dict, obs: dict) -> tuple[list[tuple[str, dict]], dict]:
                             f"{failures[0][2]} {failures[0][3]} at t={t0}); operator() still running at t={limit} "
                             f"(bound {bound} s), all root tasks alive; {len(later_edit)} later edit(s), handled: {handled_later}",
                             F3_SIG))
+            elif sc.get("peering") and any(f[2] == "root:core" for f in failures) and any(e[1] == "rtStopRootsBegin" for e in log) \
+                    and any(e[1] == "subSpawn" and e[3] == "pinger" and not any(x[1] == "subEnd" and x[2] == e[2] and x[0] <= limit
+                                                                                for x in log) for e in log):
+                # finding C20-F7: the stop has begun, the keep-alive task is in its `finally:` and never gets out of it
+                cf = [f for f in failures if f[2] == "root:core"][0]
+                t_stop = [e[0] for e in log if e[1] == "rtStopRootsBegin"][0]
+                wd_sent = any(log[i][7] for i in apis)
+                bad.append((f"the credentials retriever ended with {cf[3]} at t={cf[1]}; run_tasks began to stop the root tasks at "
+                            f"t={t_stop}; operator() still not returned at t={limit} (bound {bound} s): the peering keep-alive task has "
+                            f"not ended, its withdrawal request was {'sent' if wd_sent else 'never sent (waiting for credentials)'}; "
+                            f"outcome when abandoned: {ret}", VAULT_SIG))
+                facts["noncooperative"] = True
             elif dropped and dropped[0][0] == p0 and kind0 == "failure":
                 bad.append((f"a worker failed with {dropped[0][3]} at t={t0} while its watcher was depleting its workers; nothing was "
                             f"escalated: operator() still running at t={limit} (bound {bound} s); outcome {ret}", DROPPED_SIG))
@@ -712,7 +746,8 @@ def oracle(sc: dict, obs: dict) -> tuple[list[tuple[str, dict]], dict]:
         if after:
             fail("running.run_tasks", "activity after operator() returned", f"{after[:3]}")
         # the peering record is withdrawn
-        if sc.get("peering") and not sc.get("peering_faulted"):
+        # (without credentials — the credentials retriever has died — no withdrawal can be sent: kopf logs and ignores that)
+        if sc.get("peering") and not sc.get("peering_faulted") and not any(f[2] == "root:core" for f in failures):
             pings = [i for i in apis if log[i][2] == "pinger" and not log[i][7]]
             wd = [i for i in apis if log[i][7]]
             if pings and not wd:
@@ -796,9 +831,8 @@ def gen_history(rng: Any, i: int, force: dict | None = None) -> dict:
     if trigger == "early_stop_peering":
         peering = True
     if trigger == "login_fail":
-        # with peering the dead vault blocks the withdrawal PATCH for ever: the operator begins to stop but never returns
-        # (candidate finding, see ASSUMPTIONS) — a non-cooperative run, outside the traces the model accepts
-        peering = False
+        # with peering: before /repo 83aec44 the dead vault blocked the withdrawal PATCH for ever (finding C20-F7)
+        peering = force.get("peering", rng.random() < 0.3)
     handlers: list[dict] = []
     shape: dict[str, Any] = {"trigger": trigger, "peering": peering}
     # startup handlers
@@ -1005,9 +1039,12 @@ def _evaluate(ctx: Ctx, histories: list[dict], tie: bool = True) -> None:
             raise RuntimeError(f"simulation error: {obs['sim_error']} in history seed {sc.get('seed')}")
         obs_list.append(obs)
     # the oracle on every implementation run, regardless of the model
-    for sc, obs in zip(histories, obs_list):
+    noncoop: set[int] = set()
+    for k, (sc, obs) in enumerate(zip(histories, obs_list)):
         ctx.traces += 1
         bad, facts = oracle(sc, obs)
+        if facts.get("noncooperative"):
+            noncoop.add(k)
         shape = dict(sc.get("shape") or {"corpus": sc.get("name")})
         shape["outcome"] = (obs.get("returned") or {}).get("how")
         ctx.case(key=shape, nontrivial=facts.get("trigger") is not None,
@@ -1033,6 +1070,11 @@ def _evaluate(ctx: Ctx, histories: list[dict], tie: bool = True) -> None:
                                   f"{str(core_watched).lower()}: " + ("a root task awaits the core tasks)" if core_watched else
                                                                       "nobody awaits the core task, finding C20-F6)"))
     swap = bool(ctx.extra.get("core_awaited_by_stop_flag_checker"))
+    # non-cooperative runs (open finding C20-F7: the operator never returns) are outside `ReachC`: oracle only
+    if noncoop:
+        ctx.count("tie_skipped_noncooperative", "C20-F7", len(noncoop))
+        histories = [sc for k, sc in enumerate(histories) if k not in noncoop]
+        obs_list = [o for k, o in enumerate(obs_list) if k not in noncoop]
     reqs = [["C20.trace", model_cfg(sc, fixed, core_watched), abstract(obs, sc, swap)] for sc, obs in zip(histories, obs_list)]
     try:
         outs = ctx.driver.ask(reqs)
